@@ -252,6 +252,24 @@ def run(pid, spec, args, seed, t0, outdir, scratch):
     return 0
 
 
+def recorded_seeded(pid):
+    """Outcome of this property's check on the seeded changes, AS RECORDED by the last run of tools/seeded_run_all.py
+    (seeded/results.json); not re-executed by this run -- it tests the machinery and is not evidence for the property."""
+    path = os.path.join(VERIF, "seeded", "results.json")
+    try:
+        data = json.load(open(path))
+    except Exception:
+        return {"note": "no recorded run"}
+    out = []
+    for sid in sorted(data):
+        r = data[sid].get(pid) if isinstance(data[sid], dict) else None
+        if r:
+            out.append({"seeded_change": sid, "check_exit": r.get("exit"), "violations": r.get("violations"),
+                        "replayed_on_real_code": r.get("replayed_on_real_code"),
+                        "expected": "exit 0 (harmless refactoring)" if sid.startswith("N") else "exit 1"})
+    return {"recorded_at_mtime": int(os.path.getmtime(path)), "not_re_executed_in_this_run": True, "entries": out}
+
+
 def write_evidence(pid, spec, args, seed, t0, results, static_facts, undecided, violations,
                    fn_reports, partial=False, known_hits=(), extraction_errors=()):
     proof = [r for r in results if r.get("kind") == "proof"]
@@ -313,6 +331,7 @@ def write_evidence(pid, spec, args, seed, t0, results, static_facts, undecided, 
             "known_finding_obligations": len(known_hits),
             "known_findings_matched": [{"cell": c, "obligation": o, "what": k["what"]} for k, c, o in known_hits],
             "not_covered": spec.get("not_covered", []),
+            "recorded_seeded_results": recorded_seeded(pid),
             "partial_run": partial,
             "repo": repo_state(),
         },
